@@ -199,3 +199,36 @@ def bdf_protocol(backward=False):
 
     unit.__name__ = "bdf_protocol" + ("_back" if backward else "")
     return unit
+
+
+def bdf_interp_span(backward=False):
+    """C06 for BDF: the interpolant of an accepted step starts bit-for-bit at the step's start and the reported x IS
+    fl(x_start + h) of the interpolant's own (x_start, h): the stored dense segment ends exactly at the reported time."""
+
+    def unit(tier="quick", seed=0):
+        t0 = time.time()
+        ob = Ob("c06_interp_span_bdf" + ("_back" if backward else ""))
+        ps, gen_s = paths(backward, False)
+        ob.paths = len(ps)
+        n_ip = 0
+        for p in ps:
+            for cb in p.rec.callbacks:
+                ip = cb["interp"]
+                if not (isinstance(ip, REnum) and ip.name == "Some"):
+                    ob.check(p, False, "BDF: accepted step handed to the callback without an interpolant")
+                    continue
+                n_ip += 1
+                f = ip.payload[0].f
+                ob.check(p, f["xold"].t.eq(p.head["x"].t), "BDF: interpolant's left end is not the step's start (bit-for-bit)")
+                want = f["xold"].t + f["h"].t
+                ok = any(r.eq(cb["x"].t) and e.eq(want) for (r, e) in p.dom.rounded)
+                ob.check(p, ok, "BDF: the reported x is not fl(xold + h) of its interpolant: the dense span end and the reported time can differ by a rounding error")
+                if len(ob.samples) < 2:
+                    ob.samples.append({"path": p.label(), "x": str(cb["x"].t), "interp": [str(f["xold"].t), str(f["h"].t)]})
+        ob.check(ps[0], n_ip > 0, "BDF: no path hands an interpolant to the callback")
+        return ob.result(t0, {"functions": ["BDF::solve accepted-step tail"], "bounds": f"{len(ps)} body paths (newton_maxiter=1); term identity (bit-for-bit) facts",
+                              "path_generation_s": round(gen_s, 1)},
+                         replay_fn=lambda fl: replay.bdf_span_replay(backward))
+
+    unit.__name__ = "c06_interp_span_bdf" + ("_back" if backward else "")
+    return unit
